@@ -515,6 +515,13 @@ class Sim:
                 if key not in st.consts:
                     st.consts[key] = self.run_nested(st, f, f["body"], gargs, [], "const")
                 return st.consts[key]
+            ra = self.resolve_assoc_const(c, [subst(a, fr.gargs) for a in c["args"]])
+            if ra is not None:
+                f2, g2 = ra
+                key = ("const", f2["did"], repr(g2))
+                if key not in st.consts:
+                    st.consts[key] = self.run_nested(st, f2, f2["body"], g2, [], "const")
+                return st.consts[key]
             raise Unsupported("unevaluated const " + c["pretty"])
         raise Unsupported("const kind %s: %s" % (ck, c.get("s")))
 
@@ -1044,47 +1051,103 @@ class Sim:
             return Term("Neg", (a,), t) if is_float_ty(t) else int_neg(a, t)
         return NotImplemented
 
-    def resolve_trait_call(self, fnj, gargs):
-        """Find a local impl of fnj's trait method for the (now concrete) self type."""
+    def find_impl(self, trait, gargs):
+        """(impl, binding) of the crate's impl of `trait` (normalised path) that applies to the self type gargs[0]: an impl for that
+        very type (local or foreign: `impl PrivateTrait for RefCell<Terminal>`), or the trait's blanket impl (`impl<T: Bound> Tr for T`)
+        when that is its only impl - rustc has already checked that the call is well-typed, so the only applicable impl is the one."""
         if not gargs:
             return None
         self_ty = gargs[0]
-        if self_ty.get("k") == "adt":
-            a = self.prog.adt(self_ty["did"])
-            if a is None or not a["local"]:
-                return None
-        elif self_ty.get("k") != "prim":
-            return None
-        trait = self.models.norm(fnj["trait"])
-        for imp in self.prog.impls:
-            if self.models.norm(imp.get("trait", "")) != trait or imp["self"].get("k") != self_ty.get("k"):
+        cands = [imp for imp in self.prog.impls if self.models.norm(imp.get("trait", "")) == trait]
+        blanket = [imp for imp in cands if imp["self"].get("k") == "param"]
+        for imp in cands:
+            if imp["self"].get("k") == "param":
+                continue
+            if imp["self"].get("k") != self_ty.get("k"):
                 continue
             if self_ty.get("k") == "adt" and imp["self"]["did"] != self_ty["did"]:
                 continue
             if self_ty.get("k") == "prim" and imp["self"]["name"] != self_ty["name"]:
                 continue
-            # unify impl trait args (self + trait params) with gargs prefix
+            if self_ty.get("k") not in ("adt", "prim"):
+                continue
             targs = imp["trait_args"]
             binding = {}
             if not all(unify(p, g, binding) for p, g in zip(targs, gargs[:len(targs)])):
                 continue
-            for it in imp["items"]:
-                if it["name"] == fnj["name"]:
-                    f = self.prog.fns.get(it["did"])
-                    if f is None:
-                        return None
+            return imp, binding
+        if len(blanket) == 1:
+            # no impl for this very type applies (checked above), so the blanket impl is the one rustc selected
+            imp = blanket[0]
+            binding = {}
+            if all(unify(p, g, binding) for p, g in zip(imp["trait_args"], gargs[:len(imp["trait_args"])])):
+                return imp, binding
+        return None
+
+    def resolve_trait_call(self, fnj, gargs):
+        """Find a local impl of fnj's trait method for the (now concrete) self type."""
+        if not gargs:
+            return None
+        trait = self.models.norm(fnj["trait"])
+        found = self.find_impl(trait, gargs)
+        if found is None:
+            return None
+        imp, binding = found
+        for it in imp["items"]:
+            if it["name"] == fnj["name"]:
+                f = self.prog.fns.get(it["did"])
+                if f is None:
+                    return None
+                n = len(f["generics"])
+                ig = [binding.get(i, {"k": "param", "name": f["generics"][i]["name"], "idx": i}) for i in range(n)]
+                tgt = {"did": f["did"], "pretty": f["pretty"], "name": f["name"], "local": True, "args": ig,
+                       "impl_trait": imp["trait"], "impl_self": imp["self"], "impl_derived": imp["derived"]}
+                return tgt, ig
+        # provided (default) method of a local trait
+        for f in self.prog.by_name.get(fnj["name"], []):
+            if f.get("trait_default") and self.models.norm(f.get("trait", "")) == trait and "body" in f:
+                n = len(f["generics"])
+                ig = list(gargs[:n]) + [{"k": "param", "name": f["generics"][i]["name"], "idx": i} for i in range(len(gargs), n)]
+                tgt = {"did": f["did"], "pretty": f["pretty"], "name": f["name"], "local": True, "args": ig, "trait": f["trait"]}
+                return tgt, ig
+        return None
+
+    def norm_alias(self, t):
+        """`<X as Tr>::Name` with the impl of Tr for X known: the impl's own type for Name (None: leave it)"""
+        import re as _re
+        m = _re.match(r"^<(.*) as (.*)>::(\w+)$", self.models.norm(t.get("s", "")))
+        if not m or not t.get("args"):
+            return None
+        trait, name = m.group(2), m.group(3)
+        trait = trait.split("<")[0]
+        found = self.find_impl(trait, t["args"])
+        if found is None:
+            return None
+        imp, binding = found
+        for it in imp["items"]:
+            if it["name"] == name and "ty" in it:
+                n = len(imp.get("generics", []))
+                ig = [binding.get(i, {"k": "param", "name": imp["generics"][i]["name"], "idx": i}) for i in range(n)]
+                return subst(it["ty"], ig) if ig else it["ty"]
+        return None
+
+    def resolve_assoc_const(self, c, gargs):
+        """an associated const named through its trait (`<T as Tr>::K`): the item of the impl that applies to gargs[0]"""
+        pretty = self.models.norm(c.get("pretty", ""))
+        if "::" not in pretty:
+            return None
+        trait, name = pretty.rsplit("::", 1)
+        found = self.find_impl(trait, gargs)
+        if found is None:
+            return None
+        imp, binding = found
+        for it in imp["items"]:
+            if it["name"] == name:
+                f = self.prog.fns.get(it["did"])
+                if f is not None and "body" in f:
                     n = len(f["generics"])
                     ig = [binding.get(i, {"k": "param", "name": f["generics"][i]["name"], "idx": i}) for i in range(n)]
-                    tgt = {"did": f["did"], "pretty": f["pretty"], "name": f["name"], "local": True, "args": ig,
-                           "impl_trait": imp["trait"], "impl_self": imp["self"], "impl_derived": imp["derived"]}
-                    return tgt, ig
-            # provided (default) method of a local trait
-            for f in self.prog.by_name.get(fnj["name"], []):
-                if f.get("trait_default") and self.models.norm(f.get("trait", "")) == trait and "body" in f:
-                    n = len(f["generics"])
-                    ig = list(gargs[:n]) + [{"k": "param", "name": f["generics"][i]["name"], "idx": i} for i in range(len(gargs), n)]
-                    tgt = {"did": f["did"], "pretty": f["pretty"], "name": f["name"], "local": True, "args": ig, "trait": f["trait"]}
-                    return tgt, ig
+                    return f, ig
         return None
 
     def finish_call(self, st, fr, dest, r, ret_bb):
@@ -1313,6 +1376,8 @@ class Sim:
     def run(self, fn, gargs, args, st=None):
         """Simulate fn (facts JSON) with generic args and argument values; returns leaves."""
         st = st or State()
+        import program as _program
+        _program.NORMALISER[0] = self.norm_alias      # alias types are normalised against THIS program's impls while it runs
         if "body" not in fn:
             raise Unsupported("no body for " + fn["pretty"])
         try:
